@@ -564,3 +564,6 @@ V('em5-silent-exit', ['C08'], P, "        while tok:\n            if tok.txt == 
   "        while tok:\n            if end == ']' and type(tok) is defs.ParagraphToken:\n                buf.back([opening_tok] + out)\n                return scanner.Buffer([defs.VoidToken(pos)])\n            if tok.txt == '{':\n                lev += 1", 'EM5')
 V('ck10-backend-only', ['C20'], PR, "            matches += checks.create_single_letter_matches(plain, cmdline)\n", "            if not cmdline.textgears:\n                matches += checks.create_single_letter_matches(plain, cmdline)\n", 'CK10')
 V('mt3-misspelt', ['C11'], 'yalafi/packages/amsmath.py', "        EquEnv(parms, 'multline'),\n", "        EquEnv(parms, 'multiline'),\n", 'MT3')
+V('ab5-paragraph-arg', ['C05'], P, "        if type(tok) is defs.ParagraphToken:\n            return scanner.Buffer([defs.VoidToken(tok.pos)])\n        if end == '}' and tok.txt != '{':",
+  "        if end == '}' and tok.txt != '{':", 'AB5')
+V('rp1-leading-space', ['C05', 'C13'], U, "        r = ' '.join(lin[i+1:])\n", "        r = ' '.join(lin[i+1:])\n        if not r:\n            t = r'\\s*' + t\n", 'RP1')
